@@ -970,15 +970,40 @@ class NP:
             return numpy.empty(_shape(shape), dtype=dt)
         return self._filled(shape, None, dtype)
 
+    def _like(self, a, val, dtype, shape):
+        """*_like: the new array has a's element type.  An integer / boolean prototype (a native array of such a dtype
+        or a symbolic array typed so) gives a typed symbolic buffer: what is stored into it later is C-cast."""
+        shp = numpy.shape(a) if shape is None else _shape(shape)
+        idt = None
+        if dtype is None:
+            if isinstance(a, numpy.ndarray) and a.dtype != object and a.dtype.kind in "iub":
+                idt = a.dtype
+            elif getattr(a, "_idt", None) is not None:
+                idt = a._idt
+            elif isinstance(a, numpy.ndarray) and a.dtype != object:
+                dtype = a.dtype
+        if idt is not None:
+            out = numpy.empty(shp, dtype=object)
+            for i in numpy.ndindex(*out.shape):
+                out[i] = Sym(val)
+            return core.typed(out, idt)
+        return self._filled(shp, val, dtype)
+
     def zeros_like(self, a, dtype=None, order="K", subok=True, shape=None):
-        if dtype is None and isinstance(a, numpy.ndarray) and a.dtype != object:
-            dtype = a.dtype
-        return self._filled(numpy.shape(a) if shape is None else _shape(shape), 0, dtype)
+        return self._like(a, 0, dtype, shape)
 
     def ones_like(self, a, dtype=None, order="K", subok=True, shape=None):
-        if dtype is None and isinstance(a, numpy.ndarray) and a.dtype != object:
-            dtype = a.dtype
-        return self._filled(numpy.shape(a) if shape is None else _shape(shape), 1, dtype)
+        return self._like(a, 1, dtype, shape)
+
+    def empty_like(self, a, dtype=None, order="K", subok=True, shape=None):
+        return self._like(a, 0, dtype, shape)
+
+    def full_like(self, a, fill_value, dtype=None, order="K", subok=True, shape=None):
+        out = self._like(a, 0, dtype, shape)
+        if isinstance(out, numpy.ndarray) and out.dtype == object:
+            out[...] = fill_value
+            return out
+        return numpy.full_like(out, fill_value)
 
     def identity(self, n, dtype=None):
         a = self._filled((n, n), 0)
